@@ -57,6 +57,16 @@ P4b   == Part(Intv(<<QI(0)>>, <<QI(4)>>), Grid(<<<<H(1, 2), H(3, 2), H(5, 2), H(
 PNeg  == Part(IM10, GNeg)
 PNegZ == Part(IM10, GNegZ)
 P23   == Part(I0132, G23)                    \* uniform_partition([0,0],[1,3/2],(2,3))
+\* cell sides 1/2 x 2: the cell VOLUME is exactly 1 although the space is cell-volume weighted (an "is it weighted?"
+\* test that looks at the constant only cannot tell it from an unweighted space)
+I0104 == Intv(<<QI(0), QI(0)>>, <<QI(1), QI(4)>>)
+P22u  == Part(I0104, Grid(<<<<H(1, 4), H(3, 4)>>, <<QI(1), QI(3)>>>>, ""))      \* uniform_partition([0,0],[1,4],(2,2))
+\* interval products whose zero end points are NEGATIVE zeros (-IntervalProd(0, 1), np.round(-0.2), 0.0 * -1):
+\* equal to their positive-zero twins, so they have to hash alike
+IntvZ(mn, mx) == Dsc("IntervalProd", <<>>, <<mn, mx>>, "negzero", 0)
+IM10Z == IntvZ(<<QI(-1)>>, <<QI(0)>>)
+I01Z  == IntvZ(<<QI(0)>>, <<QI(1)>>)
+I0101Z == IntvZ(<<QI(0), QI(0)>>, <<QI(1), QI(1)>>)
 
 W1 == <<QI(1), QI(2), QI(3)>>
 W1b == <<QI(1), QI(2), QI(4)>>
@@ -127,9 +137,9 @@ UBase == <<
   Fin(<<1, 2, 3>>), Fin(<<3, 2, 1>>), Fin(<<1, 2>>),
   Cart(<<Uni(<<RR, ZZ>>), Str(3)>>), Uni(<<Cls0("UniversalSet"), RR>>),
   \* ---- interval products, grids, partitions
-  I01, I0101, I010101, I0102, I02, IDeg, IM10,
+  I01, I0101, I010101, I0102, I02, IDeg, IM10, IM10Z, I01Z, I0101Z,
   G3, G3b, G4, GNeg, GNegZ, G23, G32,
-  P4, P3nob, P3non, P4b, PNeg, PNegZ, P23,
+  P4, P3nob, P3non, P4b, PNeg, PNegZ, P23, P22u, Part(IM10Z, GNeg), Part(IM10Z, GNegZ),
   \* ---- weightings of every class
   TW1, TW2, WC("TWConst", QI(1), QI(2)), WC("TWConst", Inf, QI(2)), WC("TWConst", P2, QI(3)),
   PW1, PW2, WC("PWConst", QI(1), QI(2)),
@@ -156,6 +166,7 @@ UBase == <<
   Dis(P23, Tn(<<2, 3>>, "f64", WC("TWConst", P2, Q14)), "factory"),
   Dis(P4, Tn(<<4>>, "f64", WA("TWArray", P2, W4, 7)), ""),
   Dis(P23, Tn(<<2, 3>>, "f64", WC("TWConst", Inf, QI(1))), "factory"),
+  Dis(P22u, Rn22, "factory"), Dis(Part(IM10Z, GNeg), Tn(<<3>>, "f64", WC("TWConst", P2, H(1, 2))), ""),
   \* ---- product spaces: flat, power, nested, weighted (const / array / custom), mixed
   PS(PW1, <<Rn3, Rn3>>), PS(PW1, <<Rn3, Rn3, Rn3>>), PS(PW1, <<Rn3, Rn4>>), PS(PW1, <<Rn4, Rn3>>),
   PS(PW1, <<PS(PW1, <<Rn3, Rn3>>), PS(PW1, <<Rn3, Rn3>>)>>), PS(PW1, <<Rn3, Rn3, Rn3, Rn3>>),   \* nested vs flattened
